@@ -104,8 +104,12 @@ def run(prog: Program, res: Result, tier: str) -> None:
                  and n.args and norm(n.args[0]) == "(*stereo_atoms, None)"
                  for n in ast.walk(fi.node)) and \
             "stereo_atoms = (id_atom_map[atom_idx], *neighbors)" in txt
-        if ok:
+        folded = None if ok else _fold_tetrahedral(imp, fi)
+        if ok or folded == "ok":
             res.ok("T-TRANSVERSAL", inst, fi.loc())
+        elif folded is not None:
+            res.bad("T-TRANSVERSAL", "tetrahedral atom tuple", fi.loc(),
+                    f"{inst}: {folded}", instance=inst)
         else:
             res.unrecognised("T-TRANSVERSAL", inst, fi.loc(),
                              "construction of the tetrahedral atom tuple")
@@ -178,6 +182,52 @@ def run(prog: Program, res: Result, tier: str) -> None:
                     "GetNeighbors() order (OpenSMILES semantics)"]
 
 
+def _fold_tetrahedral(imp, fi):
+    """The atom tuple of the tagged tetrahedral branch, evaluated for three
+    and four RDKit neighbours: "ok", a description of the deviation, or None
+    when a statement on the way cannot be evaluated."""
+    from ..convtables import Fold, _branches
+    brs = [b for b in _branches(fi.node, "_rd_tetrahedral")
+           if " in " in norm(b.test)]
+    if len(brs) != 1:
+        return None
+    for k in (3, 4):
+        nb = tuple(f"n{i}" for i in range(k))
+        env = dict(imp["_env"])
+        env.update({"neighbors": nb, "id_atom_map[atom_idx]": "c"})
+        f = Fold(env)
+        reached = []
+
+        def walk(stmts):
+            for st in stmts:
+                if isinstance(st, ast.If):
+                    t = f.ev(st.test)
+                    if t is UNK:
+                        return False
+                    if not walk(st.body if t else st.orelse):
+                        return False
+                elif isinstance(st, ast.Raise):
+                    return False
+                else:
+                    f.run([st])
+                    reached.extend(
+                        n for n in ast.walk(st) if isinstance(n, ast.Call)
+                        and call_name(n) == "Tetrahedral")
+            return True
+        if not walk(brs[0].body) or len(reached) != 1:
+            return None
+        c = reached[0]
+        kw = {x.arg: x.value for x in c.keywords}
+        a = f.ev(c.args[0] if c.args else kw.get("atoms"))
+        if a is UNK:
+            return None
+        want = ("c",) + nb + ((None,) if k == 3 else ())
+        if tuple(a) != want:
+            return (f"for {k} RDKit neighbours the tagged tetrahedral branch "
+                    f"builds {tuple(a)}, the tag is defined against {want}")
+    return "ok"
+
+
 def check_idmap(prog: Program, res: Result, fi) -> None:
     from ..core import reaching_defs
 
@@ -206,6 +256,15 @@ def check_idmap(prog: Program, res: Result, fi) -> None:
             return is_atomid(e.elt, depth + 1)
         if isinstance(e, ast.IfExp):
             return is_atomid(e.body, depth + 1) and is_atomid(e.orelse, depth + 1)
+        if isinstance(e, ast.BinOp) and isinstance(e.op, ast.Mult):
+            # [None] * k: a repetition of an AtomId sequence
+            seq = e.left if isinstance(e.left, (ast.List, ast.Tuple)) else (
+                e.right if isinstance(e.right, (ast.List, ast.Tuple))
+                else None)
+            return seq is not None and is_atomid(seq, depth + 1)
+        if isinstance(e, ast.BinOp) and isinstance(e.op, ast.Add):
+            return is_atomid(e.left, depth + 1) and is_atomid(
+                e.right, depth + 1)
         if isinstance(e, ast.Name):
             defs = reaching_defs(fi.node, e)
             if not defs:
